@@ -3,7 +3,10 @@ package main
 // minimal bech32 encoder (BIP-173) used to turn model strings that the path treats as valid
 // addresses into real addresses for native replay.
 
-import "strings"
+import (
+	"encoding/hex"
+	"strings"
+)
 
 const bech32Charset = "qpzry9x8gf2tvdw0s3jn54khce6mua7l"
 
@@ -68,7 +71,24 @@ func bech32Encode(hrp string, data []byte) string {
 	return sb.String()
 }
 
+// keyTable: addresses of secp256k1.GenPrivKeyFromSecret("verif-key-<n>"), n = 1..16, so that the native replay
+// can sign for the first sixteen account addresses of a counterexample (binding proofs).
+var keyTable = []string{
+	"3be743f55b8863475531c542cfc9bd08008bc624", "d2ab4a9d15fe5692728bb0634bb944b24d3982ad",
+	"bcfb9e446c6dacd9352a4e5f5012d26d01785ce7", "8b52880e2997a2476bdb51acab0b528a578958a1",
+	"2c6ccf95ad70992fe32596e433356b3666449e93", "8f5bd247cfaa3c423fe69077e904f6759913a6b5",
+	"83eed8bc212538aee9ab9613581d4b91c4ecd9c5", "f1c225f48d4d199d451adb74b129adbb62619175",
+	"7c29d1c29adbf4d4d15cb6839c6efc479822f61d", "beea46fb9c6abbc6aaaecbbf095cb0d06b8ebafe",
+	"b4ae5935c235a407a610a7ddccdc870a5ee4d398", "ce73341a408f54f037470d99e73b3d1cdbbb1305",
+	"304cb98c8f53f5cfa9cb858e2f8fdbfa80d36d93", "3a126490a8ae1b5f9b5b06aed75f9dd3c3fcf8f8",
+	"789e7fd87cafb7c70763f22690edd36d5e3084b5", "fd4c507feeb9d18e86314ae7587532a5318edfea",
+}
+
 func genAddress(hrp string, n int) string {
+	if !strings.HasSuffix(hrp, "valoper") && n >= 1 && n <= len(keyTable) {
+		b, _ := hex.DecodeString(keyTable[n-1])
+		return bech32Encode(hrp, b)
+	}
 	data := make([]byte, 20)
 	data[0] = 0xA0
 	data[18] = byte(n >> 8)
